@@ -42,10 +42,10 @@ fn main() {
         resp.add_header(hdr("X-Ordinary", "again"));
         resp
     });
-    let injected: Vec<&str> = head.lines().filter(|l| l.to_ascii_lowercase().ends_with(": injected")).collect();
+    let injected: Vec<String> = header_pairs(&head).into_iter().filter(|(_, v)| v == "injected").map(|(n, _)| n).collect();
     if !injected.is_empty() { bad.push(format!("reserved headers on the wire: {:?}", injected)); }
-    let order: Vec<&str> = head.lines().filter(|l| l.starts_with("X-")).collect();
-    if order != ["X-Ordinary: kept", "X-Second: 2", "X-Ordinary: again"] { bad.push(format!("ordinary headers sent as {:?}", order)); }
+    let order: Vec<String> = header_pairs(&head).into_iter().filter(|(n, _)| n.starts_with("X-")).map(|(n, v)| format!("{}={}", n, v)).collect();
+    if order != ["X-Ordinary=kept", "X-Second=2", "X-Ordinary=again"] { bad.push(format!("ordinary headers sent as {:?}", order)); }
     // (b) library-supplied Date / Server
     let d = values(&head, "Date");
     if d.len() != 1 || !is_http_date(&d[0]) { bad.push(format!("Date header(s) of a plain response: {:?}", d)); }
@@ -71,8 +71,8 @@ fn main() {
         vec![hdr("Content-Type", "a/one"), hdr("X-First", "1"), hdr("content-type", "b/two"), hdr("Transfer-Encoding", "injected"), hdr("X-Second", "2"), hdr("Content-Length", "5")],
         std::io::Cursor::new(b"hello".to_vec()), None, None));
     let (ct, cl) = (values(&head, "Content-Type"), values(&head, "Content-Length"));
-    let order: Vec<&str> = head.lines().filter(|l| l.starts_with("X-")).collect();
-    if ct != ["b/two"] || cl != ["5"] || order != ["X-First: 1", "X-Second: 2"] || head.to_ascii_lowercase().contains("injected") {
+    let order: Vec<String> = header_pairs(&head).into_iter().filter(|(n, _)| n.starts_with("X-")).map(|(n, v)| format!("{}={}", n, v)).collect();
+    if ct != ["b/two"] || cl != ["5"] || order != ["X-First=1", "X-Second=2"] || head.to_ascii_lowercase().contains("injected") {
         bad.push(format!("header list given to Response::new: Content-Type {:?}, Content-Length {:?}, ordinary {:?}, reserved on the wire: {}", ct, cl, order, head.to_ascii_lowercase().contains("injected")));
     }
     verdict(bad.is_empty(), &format!("header policy: {}", if bad.is_empty() { "as the property says".into() } else { bad.join(" | ") }));
